@@ -54,10 +54,15 @@ func main() {
 	case "replay":
 		replay(os.Args[2])
 	case "record":
+		if len(os.Args) < 6 {
+			hx.Die("usage: msgtext record <out> <stride> <off> <n>")
+		}
 		st, _ := strconv.Atoi(os.Args[3])
 		off, _ := strconv.Atoi(os.Args[4])
 		n, _ := strconv.Atoi(os.Args[5])
 		record(os.Args[2], st, off, n)
+	case "reexec": // reexec <events-in> <events-out>
+		reexec(os.Args[2], os.Args[3])
 	default:
 		hx.Die("unknown mode %s", os.Args[1])
 	}
@@ -126,30 +131,15 @@ func record(out string, stride, off, n int) {
 			word = word&^0x7800 | []int{0, 5}[r.Intn(2)]<<11
 		}
 		id := r.Intn(65536)
-		m := hdrOf(id, word)
 		e := &event{Ev: "msg", Id: id, W: word, Counts: []int{r.Intn(3), r.Intn(3), r.Intn(3), r.Intn(3)}}
-		for i := 0; i < e.Counts[0]; i++ {
-			m.Question = append(m.Question, dns.Question{Name: "q.example.", Qtype: dns.TypeA, Qclass: dns.ClassINET})
-		}
-		for i := 0; i < e.Counts[1]; i++ {
-			m.Answer = append(m.Answer, aRec("an.example."))
-		}
-		for i := 0; i < e.Counts[2]; i++ {
-			m.Ns = append(m.Ns, aRec("ns.example."))
-		}
-		for i := 0; i < e.Counts[3]; i++ {
-			m.Extra = append(m.Extra, aRec("ar.example."))
-		}
+		e.Rcode = hdrOf(id, word).Rcode // as the real Unpack reads it
 		if e.Counts[3] > 0 && r.Intn(2) == 0 {
 			e.Opt = true
-			o := new(dns.OPT)
-			o.Hdr.Name, o.Hdr.Rrtype = ".", dns.TypeOPT
-			o.SetUDPSize(1232)
-			m.Extra[r.Intn(len(m.Extra))] = o
 			if r.Intn(2) == 0 {
-				m.Rcode = []int{16, 17, 18, 19, 20, 21, 22, 23, 24, 255, 4095}[r.Intn(11)]
+				e.Rcode = []int{16, 17, 18, 19, 20, 21, 22, 23, 24, 255, 4095}[r.Intn(11)]
 			}
 		}
+		m := msgOf(e, r.Intn(8))
 		e.Rcode = m.Rcode
 		e.Text = hx.FromString(m.String())
 		seen[fmt.Sprint("m", word, e.Counts, e.Opt, e.Rcode)] = true
@@ -161,5 +151,55 @@ func record(out string, stride, off, n int) {
 	}
 	w.Close()
 	sum.Nontrivial = len(seen)
+	sum.Print()
+}
+
+// msgOf builds the message of a "msg" event: header from the real Unpack of <<id, w>>, counts[i] records per
+// section, one additional record replaced by an OPT when opt, Rcode as recorded.
+func msgOf(e *event, optAt int) *dns.Msg {
+	m := hdrOf(e.Id, e.W)
+	for i := 0; i < e.Counts[0]; i++ {
+		m.Question = append(m.Question, dns.Question{Name: "q.example.", Qtype: dns.TypeA, Qclass: dns.ClassINET})
+	}
+	for i := 0; i < e.Counts[1]; i++ {
+		m.Answer = append(m.Answer, aRec("an.example."))
+	}
+	for i := 0; i < e.Counts[2]; i++ {
+		m.Ns = append(m.Ns, aRec("ns.example."))
+	}
+	for i := 0; i < e.Counts[3]; i++ {
+		m.Extra = append(m.Extra, aRec("ar.example."))
+	}
+	if e.Opt {
+		o := new(dns.OPT)
+		o.Hdr.Name, o.Hdr.Rrtype = ".", dns.TypeOPT
+		o.SetUDPSize(1232)
+		m.Extra[optAt%len(m.Extra)] = o
+	}
+	m.Rcode = e.Rcode
+	return m
+}
+
+func reexec(in, out string) {
+	var sum hx.Summary
+	w := hx.NewWriter(out)
+	hx.ReadNDJSON(in, func(i int, e *event) {
+		switch e.Ev {
+		case "hdr":
+			m := hdrOf(e.Id, e.W)
+			m.Rcode = e.Rcode
+			e.Text = hx.FromString(m.MsgHdr.String())
+		case "msg":
+			e.Text = hx.FromString(msgOf(e, 0).String())
+		default:
+			hx.Die("unknown event %q", e.Ev)
+		}
+		if e.Counts == nil {
+			e.Counts = []int{}
+		}
+		w.Emit(e)
+		sum.Evaluations++
+	})
+	w.Close()
 	sum.Print()
 }
